@@ -195,6 +195,8 @@ def parallelize(  # noqa: C901
         for (task_idx, (args, kwargs)) in enumerate(sub_args_list):
             if os.environ.get('ICECUBE_SKYLLH_VERIF') == '1':
                 _verif_point('task', pid, task_idx)
+            # Don't alter the dictionary of the caller.
+            kwargs = dict(kwargs)
             if rss is not None:
                 kwargs['rss'] = rss
             if tl is not None:
@@ -260,6 +262,8 @@ def parallelize(  # noqa: C901
         """
         result_list = []
         for (master_task_idx, (args, kwargs)) in enumerate(sub_args_list):
+            # Don't alter the dictionary of the caller.
+            kwargs = dict(kwargs)
             if rss is not None:
                 kwargs['rss'] = rss
             if tl is not None:
